@@ -21,6 +21,11 @@ CHECKS = {
          "For 28 colour types x f32/f64 every combination of component classes {far below, just below, min-ulp, min, min+ulp, inside, max-ulp, max, max+ulp, just above, far above} (the 'one below, another above' cases the diagonal range tests never build) goes through clamp, clamp_assign and is_within_bounds, plain, wrapped in Alpha with 7 alphas and as slices of length 0..3; checked bitwise: clamp result within bounds and within the type's own min/max accessors, reference clamp per independent component, unbounded components untouched, in-bounds unchanged, idempotent, assign == by-value, slice and Alpha forms == element form. Then for every discovered edge (8 graphs) and every in- and out-of-range lattice value: from_color == clamp(from_color_unclamped) and try_from_color is Ok(unclamped) iff unclamped.is_within_bounds(), else Err carrying the unclamped colour.",
          "Exact comparisons; bounds are read from the accessors at run time (Lch's max_chroma is documented as a practical figure, not a bound; CAM16 attributes: lower bound 0). Cam16 (full, not ArrayCast) is not included. Values between lattice classes are equivalent for a comparison-based clamp.",
          "§4 C03"),
+ "C07": ("model_checking",
+         "exhaustive enumeration of the boundary lattice of every colour type (and ordered pairs of it for binary operations) through every discovered conversion, clamp, operator, blend mode and difference measure on the real code, with the invariant 'finite, no panic' evaluated on every result",
+         "Every colour whose components are each exactly on a bound of the documented range, exactly zero, or 1e-9 of the range away (black, white, grey axis, zero chroma, zero alpha, hue sector edges), of every node of 12 compiler-discovered conversion graphs (f32 and f64), goes through every unclamped and clamped conversion edge and clamp; boundary colours of the cylindrical and rectangular types go through lighten/darken/saturate/desaturate (+_fixed) x 9 factors, shift_hue and mix partners; all ordered pairs of 120 Lab boundary colours through 11 difference measures; all ordered pairs of 72 LinSrgba boundary colours through the 11 blend modes, 6 Porter-Duff operators and WCAG contrast. No result may contain NaN/inf, no call may panic.",
+         "Invariant only (no reference model needed); colours strictly between lattice points are not explored; CAM16 is covered under C16.",
+         "§4 C07"),
  "C05": ("model_checking",
          "exhaustive enumeration of the complete f32 input space (2^32 bit patterns walked as a successor chain) and of every code, on the real encoders/decoders, against a closed-form reference model",
          "Every one of the 2^32 f32 bit patterns (and its f64 widening, plus 51 doubles around each code transition) is run through each integer fast path (sRGB, Rec OETF, Adobe, P3 gamma u8; ProPhoto u16) with the table index asserted in range by the palette_verif hook; monotonicity is checked on every successor pair, saturation at both ends, the 0.6-code accuracy bound at both ends of every run of equal codes (sufficient by monotonicity of both curves), every decoder code against the closed form, decode->encode identity for every code, and the generic float curves on f32/f64 chains with complete windows round every knee. The integer-path verdict is not bounded: the space is complete.",
